@@ -1,7 +1,7 @@
 from dataclasses import dataclass, field
 
 from kirin import ir, rewrite
-from kirin.dialects import func
+from kirin.dialects import func, ilist
 from kirin.dialects.py import Constant
 from kirin.ir.nodes.stmt import Statement
 from kirin.passes import Fold, Pass
@@ -49,12 +49,36 @@ class InjectSpecRule(RewriteRule):
         return RewriteResult()
 
 
-def _closure_constant(node: Statement) -> ir.Method | None:
-    """the method held by a constant (a closure without captures that folding lifted)."""
+def _methods_in(value) -> list[ir.Method]:
+    """the methods held by a constant value: a closure without captures that folding
+    lifted, or closures inside a tuple / list (a subroutine returning several)."""
+    if isinstance(value, ir.Method):
+        return [value]
+    if isinstance(value, (tuple, list, ilist.IList)):
+        items = value.data if isinstance(value, ilist.IList) else value
+        return [mt for item in items for mt in _methods_in(item)]
+    return []
+
+
+def _retargeted(value, new_methods: dict[ir.Method, ir.Method]):
+    """`value` with every method it holds replaced by its copy."""
+    if isinstance(value, ir.Method):
+        return new_methods.get(value, value)
+    if isinstance(value, tuple):
+        return tuple(_retargeted(item, new_methods) for item in value)
+    if isinstance(value, list):
+        return [_retargeted(item, new_methods) for item in value]
+    if isinstance(value, ilist.IList):
+        return ilist.IList(
+            [_retargeted(item, new_methods) for item in value.data], elem=value.elem
+        )
+    return value
+
+
+def _constant_methods(node: Statement) -> list[ir.Method]:
     if isinstance(node, Constant) and isinstance(node.value, ir.PyAttr):
-        if isinstance(node.value.data, ir.Method):
-            return node.value.data
-    return None
+        return _methods_in(node.value.data)
+    return []
 
 
 def _reachable_methods(mt: ir.Method) -> list[ir.Method]:
@@ -70,8 +94,8 @@ def _reachable_methods(mt: ir.Method) -> list[ir.Method]:
         for stmt in current.callable_region.walk():
             if isinstance(stmt, func.Invoke):
                 todo.append(stmt.callee)
-            elif (closure := _closure_constant(stmt)) is not None:
-                todo.append(closure)
+            else:
+                todo.extend(_constant_methods(stmt))
     return list(seen)
 
 
@@ -92,10 +116,10 @@ class _RetargetMethods(RewriteRule):
                 )
             )
             return RewriteResult(has_done_something=True)
-        elif (closure := _closure_constant(node)) is not None:
-            if (new_closure := self.new_methods.get(closure)) is None:
+        elif closures := _constant_methods(node):
+            if not any(closure in self.new_methods for closure in closures):
                 return RewriteResult()
-            node.replace_by(Constant(new_closure))
+            node.replace_by(Constant(_retargeted(node.value.data, self.new_methods)))
             return RewriteResult(has_done_something=True)
         return RewriteResult()
 
